@@ -30,8 +30,8 @@ package controllerref
 
 //@ func UnstructuredManager.adoptChild(m, child) (err)
 //@   // the child comes from the shared informer cache: adoption goes through a fresh read (atomicUpdate), the cached object is never
-//@   // written (CanAdopt memoises its answer in the manager itself)
-//@   writes [C17,C02] fresh, m
+//@   // written
+//@   writes [C17,C02] fresh
 //@   requires m != nil && child != nil && validClient(m.client) && m.Controller != nil && ref(m.Controller) != 0
 //@   safety C13
 //@   bind call BaseControllerRefManager.CanAdopt: caErr
